@@ -190,8 +190,11 @@ class Constant(Program):
     def all_constants_instantiation(
         self, constants: Dict[Type, TList[Any]]
     ) -> Generator["Program", None, None]:
-        for val in constants[self.type]:
-            yield Constant(self.type, val)
+        if self.has_value():
+            yield self
+        else:
+            for val in constants[self.type]:
+                yield Constant(self.type, val)
 
     def __str__(self) -> str:
         if self.has_value():
